@@ -18,8 +18,8 @@ Theorem c18_execute_returns : forall o n c cs t,
   let s := run o (init n c) cs in
   live (subs s t) ->
   (step o s (Sub t) = None ->
-   (subs s t = SParked /\ In t (skipn (cap s) (queue s))) \/ (subs s t = SCheck /\ sh s = ShLocking)) /\
-  (sh s = ShIdle -> length (queue s) <= cap s -> step o s (Sub t) <> None) /\
+   (subs s t = SParked /\ In t (skipn (cap s) (queue s))) \/ (subs s t = SCheck /\ writer_waiting s)) /\
+  (sh s = ShIdle -> pendw s = 0 -> length (queue s) <= cap s -> step o s (Sub t) <> None) /\
   (forall s', ph s = PRunning -> step o s (Sub t) = Some s' -> rank (subs s' t) < rank (subs s t)).
 Proof.
   intros o n c cs t s L. split; [apply sub_blocked_only_without_room; exact L|].
@@ -30,7 +30,7 @@ Print Assumptions c18_execute_returns.
 (* ... and, undisturbed, a call on a running executor with room returns nil with its task queued *)
 Theorem c18_execute_solo : forall o n c cs,
   let s := run o (init n c) cs in
-  ph s = PRunning -> sh s = ShIdle -> length (queue s) < cap s ->
+  ph s = PRunning -> sh s = ShIdle -> pendw s = 0 -> length (queue s) < cap s ->
   let s' := run o s [Call; Sub (next s); Sub (next s); Sub (next s); Sub (next s)] in
   subs s' (next s) = SRet ROk /\ queue s' = queue s ++ [next s] /\ ran s' = ran s.
 Proof. intros o n c cs s. apply solo_execute. apply (proj1 (reach_Inv o n c cs)). Qed.
@@ -132,6 +132,28 @@ Theorem c18_in_flight_bound : forall o n c cs,
 Proof. exact in_flight_bound. Qed.
 Print Assumptions c18_in_flight_bound.
 
+(* ANY NUMBER of goroutines may call Shutdown, concurrently with each other and with any number of
+   submitters (also during the lazy start): the schedules contain [ShutOther]/[ShutOtherGo] for all
+   callers beside the one whose later steps [Shut] follows, and every theorem of this file is over
+   those schedules.  The state leaves Running once and for good (exactly one caller's CAS succeeds);
+   a further caller gets the lock exactly when no Execute holds it, and then either is the one that
+   performs the state change or returns without touching queue, workers, tasks or submitters *)
+Theorem c18_shutdown_once : forall o n c cs1 cs2,
+  let s1 := run o (init n c) cs1 in
+  shut_begun (ph s1) -> shut_begun (ph (run o s1 cs2)).
+Proof. exact shutdown_once. Qed.
+Print Assumptions c18_shutdown_once.
+
+Theorem c18_other_shutdown_callers : forall o s, pendw s <> 0 ->
+  (step o s ShutOtherGo <> None <-> forallb (fun t => negb (is_reader (subs s t))) (seq 0 (next s)) = true) /\
+  (forall s', step o s ShutOtherGo = Some s' ->
+     (ph s = PRunning /\ ph s' = PShutdown /\ sh s' = ShClose) \/
+     (ph s <> PRunning /\ ph s' = ph s /\ sh s' = sh s /\ pendw s' = pred (pendw s))) /\
+  (forall s', step o s ShutOtherGo = Some s' ->
+     queue s' = queue s /\ ws s' = ws s /\ ran s' = ran s /\ subs s' = subs s /\ dn s' = dn s /\ closed s' = closed s).
+Proof. exact other_caller_spec. Qed.
+Print Assumptions c18_other_shutdown_callers.
+
 (* "Once shutdown has returned no task is running or will be started, and all workers have exited" *)
 Theorem c18_quiescent : forall o n c cs cs',
   let s := run o (init n c) cs in
@@ -176,6 +198,17 @@ Definition ex_cs1 : list choice :=
 Definition ex_cs2 : list choice :=
   [Shut; Shut; Shut; SeeDone 1; DrainTake 1; Finish 0; Finish 1; SeeDone 0; DrainEmpty 0; DrainEmpty 1;
    Shut; Shut; Shut].
+(* three goroutines call Shutdown while task 1 is still queued: two of them announce first, one of
+   these wins the CAS, the caller followed by [Shut] loses it; everything accepted is run *)
+Definition ex_cs3 : list choice :=
+  [ShutOther; ShutOther; Shut; ShutOtherGo; ShutOtherGo; ShutOtherGo;
+   Shut; SeeDone 1; DrainTake 1; Finish 0; Finish 1; SeeDone 0; DrainEmpty 0; DrainEmpty 1; Shut; Shut; Shut].
+Example c18_example_three_callers :
+  let s1 := run ex_oracle (init 2 1) ex_cs1 in
+  let s3 := run ex_oracle s1 ex_cs3 in
+  sh s3 = ShDone /\ ph s3 = PTerminated /\ ran s3 = [0; 1] /\ pendw s3 = 0 /\ ws s3 = [WExited; WExited].
+Proof. vm_compute. repeat split. Qed.
+
 Example c18_example :
   let s1 := run ex_oracle (init 2 1) ex_cs1 in
   let s2 := run ex_oracle s1 ex_cs2 in
